@@ -48,15 +48,35 @@ def savable_classes(prog) -> List[ClassInfo]:
 def members_deepcopied(chk: Check, rule: str = 'PROV-copy-at-save') -> None:
     """Auto-persisted members that are neither methods nor Savables are deep-copied into the saved state -- every one, whatever
     its type (a tuple of mutable arguments is as shared as a list).  Shared with C13 (the next step's arguments)."""
+    from ..decisions import leaf, paths_under, value_on_path
     prog = chk.prog
     sm = prog.func('persistence.Savable.save_members')
+    ffs = chk.ctx.facts.analyse(sm)
+    stores = [n for n in ffs.cfg.nodes if n.kind == 'stmt' and isinstance(n.ast, ast.Assign) and isinstance(n.ast.targets[0], ast.Subscript)
+              and len(sm.params) > 2 and norm(n.ast.targets[0].value) == sm.params[2]]
+    ism = [c for c in calls_in_func(sm) if norm(c.func) in ('inspect.ismethod', 'ismethod')]
+    isv = [c for c in calls_in_func(sm) if norm(c.func) == 'isinstance' and len(c.args) == 2 and norm(c.args[1]).split('.')[-1] == 'Savable']
     ok = False
-    for n in ast.walk(sm.node):
-        if isinstance(n, ast.If) and 'ismethod' in norm(n.test):
-            cur = n
-            while len(cur.orelse) == 1 and isinstance(cur.orelse[0], ast.If):
-                cur = cur.orelse[0]
-            ok = any(isinstance(s, ast.Assign) and isinstance(s.value, ast.Call) and norm(s.value.func) == 'copy.deepcopy' for s in cur.orelse)
+    if len(ism) == 1 and len(isv) == 1 and stores and ism[0].args:
+        # decision table: with "is a bound method" and "is a Savable" both false, EVERY way to the store (whatever else is tested on the way) stores a deep copy of the member
+        M, S = leaf(ffs, ism[0])[0], leaf(ffs, isv[0])[0]
+        subj = norm(ism[0].args[0])
+        seen = 0
+        ok = True
+        for path in paths_under(ffs, {M: False, S: False}, frozen=[subj]):
+            idx = [i for i, m in enumerate(path) if m in stores]
+            if not idx:
+                continue
+            seen += 1
+            i = idx[0]
+            first = subj
+            for j in range(i):
+                a_ = path[j].ast
+                if path[j].kind == 'stmt' and isinstance(a_, ast.Assign) and norm(a_.targets[0]) == subj:
+                    first = norm(value_on_path(path, j, a_.value))
+                    break
+            ok = ok and norm(value_on_path(path, i, path[i].ast.value)) == f'copy.deepcopy({first})'
+        ok = ok and seen > 0
     chk.ob(rule, sm, ok, 'save_members deep-copies every member that is neither a method nor a Savable', kind='members-deepcopied')
 
 
@@ -145,13 +165,15 @@ def stored_exceptions_roundtrip(chk: Check, rule: str = 'SYM-exception-roundtrip
     chk.ob(rule, 'plumpy exceptions', True, f'{n} exception class(es) whose constructor does not match their args examined for reachability of the EXCEPTED state', kind='exception-classes-scan')
 
 
-def persisted_fields(chk: Check, rule: str = 'SYM-persisted-field') -> None:
+def persisted_fields(chk: Check, rule: str = 'SYM-persisted-field', only=None) -> None:
     """Reference table of what a checkpoint must carry: each field is auto-persisted or bound to one key on both the save and the
     load side.  Shared with C08 (a field re-derived or dropped on load is a restored process that differs from the original)."""
     prog = chk.prog
     ctx = chk.ctx
     # (i) reference table
     for cq, attr, how in PERSISTED:
+        if only is not None and (cq, attr) not in only:
+            continue
         c = prog.cls(cq)
         auto = auto_persist_set(prog, c)
         if how == 'auto':
@@ -431,8 +453,11 @@ def run(chk: Check) -> None:
     restored_fields_not_clobbered(chk)
     from .common import copy_protocol_is_deep
     copy_protocol_is_deep(chk, 'PROV-copy-at-save')
-    from .c19 import class_identified_by_loader
+    from .c19 import class_identified_by_loader, loader_precedence
     class_identified_by_loader(chk, 'PROV-class-identifier')
+    # a bundle is read with the loader IT was written with unless the caller names one: the load context handed in is extended in a copy, never written to (a launcher
+    # shares one context across loads: the loader of the first bundle must not stick to it) -- shared with C19
+    loader_precedence(chk, 'PROV-class-identifier')
     # 5. YAML tags
     mod = prog.module('persistence')
     reps, cons = {}, {}
@@ -455,4 +480,31 @@ def run(chk: Check) -> None:
         tag = [prog.fold(mod, c.args[0]) for c in calls_in_func(ur, 'represent_scalar')]
         chk.ob('TAB-yaml', 'persistence.uuid_representer', reps.get('uuid.UUID') == 'uuid_representer' and tag == [cons.get('uuid_constructor')],
                f'uuid values (default pids) round-trip through YAML under one tag ({tag})', kind='uuid-tag')
+    # every YAML representer the package registers, anywhere: what it writes is read back as the same type -- it emits a TAG for which a constructor is registered.  A
+    # representer that writes one of plumpy's own types as a plain mapping / sequence / string has no way back: the value returns as dict / list / str
+    all_cons, n_rep = set(), 0
+    for m_ in prog.modules.values():
+        for n in ast.walk(m_.tree):
+            if isinstance(n, ast.Call) and isinstance(n.func, ast.Attribute) and n.func.attr in ('add_constructor', 'add_multi_constructor') and n.args:
+                t_ = prog.fold(m_, n.args[0])
+                if isinstance(t_, str):
+                    all_cons.add(t_)
+    for m_ in prog.modules.values():
+        for n in ast.walk(m_.tree):
+            if not (isinstance(n, ast.Call) and isinstance(n.func, ast.Attribute) and n.func.attr in ('add_representer', 'add_multi_representer') and len(n.args) >= 2):
+                continue
+            if norm(n.args[1]).startswith('yaml.') and norm(n.args[1]).endswith('.represent_name'):
+                continue   # PyYAML's own name representer (classes by qualified name): written and read back by the library's python/name tag
+            n_rep += 1
+            rf = m_.functions.get(norm(n.args[1]))
+            tags, plain = [], True
+            if rf is not None:
+                tagged = [c for c in calls_in_func(rf) if last_name(c) in ('represent_scalar', 'represent_mapping', 'represent_sequence') and c.args]
+                tags = [prog.fold(m_, c.args[0]) for c in tagged]
+                plain = not tagged or any(last_name(c) in ('represent_dict', 'represent_list', 'represent_str', 'represent_data', 'represent_set') for c in calls_in_func(rf))
+            ok = rf is not None and not plain and all(isinstance(t_, str) and t_ in all_cons for t_ in tags)
+            chk.ob('TAB-yaml', f'{m_.short}.{norm(n.args[1])}', ok, f'values of {norm(n.args[0])} are written to YAML under a tag that a registered constructor reads back (tags {tags}; constructors {sorted(all_cons)})'
+                   + ('' if ok else ' -- they are not: the type is lost in a YAML checkpoint (the loaded process holds a plain mapping / string where the original held this type)'),
+                   node=n, kind='representer-has-constructor', expr=norm(n.args[0]))
+    chk.floor('TAB-yaml:representers', n_rep, 2)
     chk.assumptions.append('how pickle / YAML / deepcopy treat arbitrary member values is outside the shape of plumpy (bundle equality itself is not decided)')
